@@ -82,7 +82,7 @@ CHECKS = {
         "text": "Name::is_valid_syntax vs [_A-Za-z][_0-9A-Za-z]* for every valid-UTF-8 string <= 6 bytes (8 thorough); every Name "
                 "constructor and the serde visitors funnel through it (<= 3 bytes); IntValue/FloatValue::valid_syntax and their "
                 "serde visitors vs the lexical grammar for every string <= 5/4 bytes (7/6 thorough) over a 16-character alphabet; "
-                "IntValue::from(i32)/try_to_i32 round trip on the edge ranges (all i32 attempted in the thorough tier).",
+                "IntValue::from(i32)/try_to_i32 round trip on the extreme values and the +-4096 edge ranges (all i32 attempted in the thorough tier).",
         "design_ref": "DESIGN.md section 4, C10",
         "note": "alloc::fmt::format stubbed; f64 conversions and type-reference print/parse are outside the claim.",
     },
